@@ -26,11 +26,28 @@
     String moves (movs stos lods; byte / word / dword, 16- and 32-bit addressing): each regenerated list is the mirror SemStr.mirror_str
     of the dumped operands; the pointer registers move by the element size, down when df is set, modulo the pointer width.
     lahf / sahf: the regenerated lists are the mirror; ah receives SF:ZF:0:AF:0:PF:1:CF and each flag receives its bit of ah.
+    Exchange-and-add, string compares, counted loops, sign fill, bit tests, byte swap, compare-and-exchange (xadd cmps scas loop loope
+    loopne jecxz cdq bt btc bts btr bswap cmpxchg): every such form of the regenerated dump is, node for node, the mirror
+    SemMisc.mirror_misc of the dumped operands, operand-size flag and next-instruction address (bswap of a 16-bit register, undefined
+    architecturally, is declined).  For ALL operands and states: xadd's sum, cf and of are those of the addition and the source receives
+    the old destination; cmps / scas are the cmp mirror of [esi] - [edi] / accumulator - [edi] followed by the string pointer update;
+    the loop family decrements ecx modulo 2^32 and leaves the loop exactly when the new count is 0 (or zf is set / clear for loopne /
+    loope), jecxz branches exactly when ecx is 0; cdq / cwd fill edx / dx so that upper:lower is the sign extension; on a register
+    operand of 16 or 32 bits bt* copy bit (index mod width) to cf and bts / btr / btc set / clear / complement that bit only; bswap's
+    byte j is the operand's byte 3 - j; cmpxchg's comparison expression is zero exactly when destination and accumulator are equal.
+    NOT covered by these theorems and left to the evaluation against the SDM reference: the count register under the 67 prefix, the
+    bit-string addressing of bt* on memory operands, which accumulator slice cmpxchg compares with and its other flags (known findings),
+    xadd with both operands in one register (known finding).
+    Double shifts (shld shrd; immediate and cl counts; 16- and 32-bit operands), VALUE only: in every regenerated form the destination is
+    assigned the mirror SemDShift.dshift_val of the dumped operands, and for ALL operands and states with a count not above the width
+    that value is the processor's — shrd: dest / 2^c OR-ed with (src * 2^(n-c)) mod 2^n; shld: the count masked to five bits, count 0
+    keeps the destination, otherwise (dest * 2^c) mod 2^n OR-ed with src / 2^(n-c).  Counts above the width (shrd does not mask its
+    count; 16-bit operands with counts 17..31 are architecturally undefined) and the flags are left to the evaluation.
     af is refuted (known finding: the formula is pinned by tests/test_emul.py).  Everything else of the integer core (flags of
-    shifts and rotates, rcl/rcr, double shifts, mul/div, string, other control transfers ...) is decided by evaluating the regenerated IR with the
+    shifts and rotates, rcl/rcr, mul/div, other control transfers ...) is decided by evaluating the regenerated IR with the
     extracted Expr.eval against the SDM reference (harness/p_c04.py), not by a theorem. *)
 From Coq Require Import ZArith List Bool String.
-From Mx Require Import Expr Wf Sem SemProofs SemFacts SemCC SemCCProofs SemCCFacts SemMov SemMovProofs SemMovFacts SemShift SemShiftProofs SemShiftFacts SemCtl SemCtlProofs SemCtlFacts SemStr SemStrProofs SemStrFacts SemFlagMove SemFlagMoveFacts.
+From Mx Require Import Expr Wf Sem SemProofs SemFacts SemCC SemCCProofs SemCCFacts SemMov SemMovProofs SemMovFacts SemShift SemShiftProofs SemShiftFacts SemCtl SemCtlProofs SemCtlFacts SemStr SemStrProofs SemStrFacts SemFlagMove SemFlagMoveFacts SemMisc SemMiscProofs SemMiscFacts SemDShift SemDShiftProofs SemDShiftFacts.
 From MxGen Require Import LiftAll.
 Import ListNotations.
 Open Scope Z_scope.
@@ -270,6 +287,93 @@ Theorem C04_lahf_sahf_meaning : forall rho mu iota,
 Proof. intros rho mu iota. split; [apply lahf_value | intros k Hk; apply sahf_bit; exact Hk]. Qed.
 Print Assumptions C04_lahf_sahf_meaning.
 
+(** xadd cmps scas loop loope loopne jecxz cdq bt btc bts btr bswap cmpxchg *)
+Theorem C04_misc_forms_are_the_mirror : forall sh c k l m, In sh shards -> In c sh -> misc_of (lc_mnemo c) = Some k -> lc_lift c = Some l ->
+  mirror_misc k (lc_o16 c) (lc_next c) (lc_args c) = Some m -> forall rho mu iota, map (eval rho mu iota) l = map (eval rho mu iota) m.
+Proof. exact misc_forms_lifted. Qed.
+Print Assumptions C04_misc_forms_are_the_mirror.
+
+Theorem C04_xadd : forall rho mu iota a b, operand_ok a = true -> operand_ok b = true -> size a = size b ->
+  let n := size a in let x := eval rho mu iota a in let y := eval rho mu iota b in let c := alu_val Add b a in
+  eval rho mu iota c = (x + y) mod 2 ^ n /\
+  eval rho mu iota (add_cf_src b a c) = Z.b2z (cf_add n y x 0) /\ eval rho mu iota (add_of_src b a c) = Z.b2z (of_add n y x 0).
+Proof. exact xadd_value. Qed.
+Print Assumptions C04_xadd.
+
+Theorem C04_cmps_scas_are_cmp_then_pointer_update : forall o nx pa w sa pb sb,
+  mirror_misc Cmps o nx [EMem pa w sa; EMem pb w sb] =
+    Some (mirror Cmp (EMem pb w sb) (EMem pa w sa) ++ [mk_aff pa (ptr_next pa (w / 8)); mk_aff pb (ptr_next2 pa pb (w / 8))]) /\
+  mirror_misc Scas o nx [EMem pa w sa] = Some (mirror Cmp (ESlice eax 0 w) (EMem pa w sa) ++ [mk_aff pa (ptr_next pa (w / 8))]) /\
+  (size pa = size pb -> ptr_next2 pa pb (w / 8) = ptr_next pb (w / 8)).
+Proof. intros o nx pa w sa pb sb. split; [apply cmps_shape | split; [apply scas_shape | apply ptr_next2_same]]. Qed.
+Print Assumptions C04_cmps_scas_are_cmp_then_pointer_update.
+
+Theorem C04_loop_family : forall rho mu iota b nx,
+  let c := (rho "ecx" - 1) mod 2 ^ 32 in let z := Z.odd (rho "zf") in
+  eval rho mu iota ecx_dec = c /\
+  eval rho mu iota (ECond ecx_dec b nx) = (if c =? 0 then eval rho mu iota nx else eval rho mu iota b) /\
+  eval rho mu iota (ECond loopne_exit nx b) = (if (c =? 0) || z then eval rho mu iota nx else eval rho mu iota b) /\
+  eval rho mu iota (ECond loope_exit nx b) = (if (c =? 0) || negb z then eval rho mu iota nx else eval rho mu iota b) /\
+  eval rho mu iota (ECond ecx nx b) = (if rho "ecx" mod 2 ^ 32 =? 0 then eval rho mu iota b else eval rho mu iota nx).
+Proof.
+  intros rho mu iota b nx. split; [apply ecx_dec_value|]. split; [apply loop_eip|]. split; [apply loopne_eip|]. split; [apply loope_eip | apply jecxz_eip].
+Qed.
+Print Assumptions C04_loop_family.
+
+Theorem C04_cdq_cwd_sign_fill : forall rho mu iota a, operand_ok a = true ->
+  let n := size a in let x := eval rho mu iota a in
+  eval rho mu iota (sign_fill a) = (if Z.testbit x (n - 1) then 2 ^ n - 1 else 0) /\
+  x + 2 ^ n * eval rho mu iota (sign_fill a) = sgnv n x mod 2 ^ (2 * n).
+Proof. exact sign_fill_value. Qed.
+Print Assumptions C04_cdq_cwd_sign_fill.
+
+Theorem C04_bit_tests_on_registers : forall rho mu iota a b k, operand_ok a = true -> operand_ok b = true -> bit_cell a b = a ->
+  0 <= k -> size a = 2 ^ k -> size a <= 2 ^ size b ->
+  let n := size a in let x := eval rho mu iota a in let p := eval rho mu iota b mod n in
+  eval rho mu iota (EOp "&" [EOp ">>" [bit_cell a b; bit_index a b]; int_from a 1]) = Z.b2z (Z.testbit x p) /\
+  forall i, 0 <= i < n ->
+    Z.testbit (eval rho mu iota (EOp "|" [bit_cell a b; bit_mask a b])) i = (if i =? p then true else Z.testbit x i) /\
+    Z.testbit (eval rho mu iota (EOp "&" [bit_cell a b; e_not (bit_mask a b)])) i = (if i =? p then false else Z.testbit x i) /\
+    Z.testbit (eval rho mu iota (EOp "^" [bit_cell a b; bit_mask a b])) i = (if i =? p then negb (Z.testbit x i) else Z.testbit x i).
+Proof.
+  intros rho mu iota a b k Oa Ob Reg Hk Sa Sb n x p. split; [exact (bit_cf_value rho mu iota a b Oa Ob Reg k Hk Sa Sb)|].
+  intros i Hi. split; [exact (bts_bits rho mu iota a b Oa Ob Reg k Hk Sa Sb i Hi)|].
+  split; [exact (btr_bits rho mu iota a b Oa Ob Reg k Hk Sa Sb i Hi) | exact (btc_bits rho mu iota a b Oa Ob Reg k Hk Sa Sb i Hi)].
+Qed.
+Print Assumptions C04_bit_tests_on_registers.
+
+Theorem C04_bswap : forall rho mu iota a, operand_ok a = true -> size a = 32 -> forall j m, 0 <= j < 4 -> 0 <= m < 8 ->
+  Z.testbit (eval rho mu iota (bswap_val a)) (8 * j + m) = Z.testbit (eval rho mu iota a) (8 * (3 - j) + m).
+Proof. exact bswap_bytes. Qed.
+Print Assumptions C04_bswap.
+
+Theorem C04_cmpxchg_comparison : forall rho mu iota a c, operand_ok a = true -> operand_ok c = true -> size a = size c ->
+  (eval rho mu iota (EOp "+" [a; EOp "-" [c]]) =? 0) = (eval rho mu iota a =? eval rho mu iota c).
+Proof. exact cmpxchg_cond. Qed.
+Print Assumptions C04_cmpxchg_comparison.
+
+(** shld / shrd *)
+Theorem C04_double_shift_forms_are_the_mirror : forall sh c k l, In sh shards -> In c sh -> dsh_of (lc_mnemo c) = Some k -> lc_lift c = Some l ->
+  is_dshift_mirror k (lc_args c) l = true.
+Proof. exact dshift_forms_lifted. Qed.
+Print Assumptions C04_double_shift_forms_are_the_mirror.
+Theorem C04_tied_double_shift_means_mirror : forall k args l, is_dshift_mirror k args l = true ->
+  exists a b c x, args = [a; b; c] /\ last_expr l = Some x /\ operand_ok a = true /\ operand_ok b = true /\ operand_ok c = true /\ size a = size b /\
+    (size a = 16 \/ size a = 32) /\ forall rho mu iota, eval rho mu iota x = eval rho mu iota (mk_aff a (dshift_val k a b c)).
+Proof. exact is_dshift_mirror_sound. Qed.
+Print Assumptions C04_tied_double_shift_means_mirror.
+Theorem C04_shrd_value : forall rho mu iota a b c, operand_ok a = true -> operand_ok b = true -> size a = size b -> operand_ok c = true ->
+  let n := size a in let x := eval rho mu iota a in let y := eval rho mu iota b in let k := eval rho mu iota c in k <= n ->
+  eval rho mu iota (shrd_val a b c) = Z.lor (x / 2 ^ k) ((y * 2 ^ (n - k)) mod 2 ^ n).
+Proof. intros rho mu iota a b c Oa Ob S Oc n x y k Hk. exact (shrd_value rho mu iota a b Oa Ob S c Oc Hk). Qed.
+Print Assumptions C04_shrd_value.
+Theorem C04_shld_value : forall rho mu iota a b c, operand_ok a = true -> operand_ok b = true -> size a = size b -> (size a = 16 \/ size a = 32) ->
+  operand_ok c = true -> (size c = 8 \/ size c = 16 \/ size c = 32) ->
+  let n := size a in let x := eval rho mu iota a in let y := eval rho mu iota b in let k := eval rho mu iota c mod 32 in k <= n ->
+  eval rho mu iota (shld_val a b c) = if k =? 0 then x else Z.lor ((x * 2 ^ k) mod 2 ^ n) (y / 2 ^ (n - k)).
+Proof. intros rho mu iota a b c Oa Ob S Hn Oc Sc n x y k Hk. exact (shld_value rho mu iota a b Oa Ob S c Hn Oc Sc Hk). Qed.
+Print Assumptions C04_shld_value.
+
 (** the mirror lays the assignments out as the lifter does *)
 Example C04_mirror_layout : forall a b, let c := alu_val Add a b in
   mirror Add a b = [upd_zf c; upd_nf c; upd_pf c; upd_af c; EAff (flag "cf") (add_cf_src a b c); EAff (flag "of") (add_of_src a b c); mk_aff a c].
@@ -302,3 +406,14 @@ Example C04_str_nonvacuous : (12 <= n_str)%nat.
 Proof. exact many_str_forms. Qed.
 Example C04_flagmove_nonvacuous : (4 <= n_fm)%nat.
 Proof. exact some_flagmove_forms. Qed.
+Example C04_misc_nonvacuous : (700 <= n_misc true)%nat /\ (n_misc false <= 8)%nat.
+Proof. exact many_misc_forms. Qed.
+Example C04_misc_every_kind : forallb misc_occurs [Xadd; Cmps; Scas; Loop; Loope; Loopne; Jecxz; Cdq; Bt; Btc; Bts; Btr; Bswap; Cmpxchg] = true.
+Proof. exact all_misc_kinds_occur. Qed.
+(** the bit-test theorem applies to `bts eax, ebx`: a 32-bit register destination, 32 = 2^5 *)
+Example C04_bit_test_hypotheses_met : let a := EId "eax" 32 true false in let b := EId "ebx" 32 true false in
+  operand_ok a = true /\ operand_ok b = true /\ bit_cell a b = a /\ size a = 2 ^ 5 /\ size a <= 2 ^ size b /\
+  mirror_misc Bts false 4099 [a; b] = Some [bit_cf a b; EAff a (EOp "|" [a; bit_mask a b])].
+Proof. cbv zeta. repeat split; vm_compute; congruence. Qed.
+Example C04_dshift_nonvacuous : (300 <= n_dsh)%nat.
+Proof. exact many_dshift_forms. Qed.
